@@ -74,16 +74,20 @@ CLAIMED["C29"] = dict(
 
 CLAIMED["C03"] = dict(
     category="proof",
-    text="Operation.is_structurally_equivalent is extracted from /repo and verified against the operation-level conjunction of the statement "
-         "(name, operand correspondence through the context, result types, attributes, properties, successors, parent correspondence, region "
-         "count; results registered positionally) for symbolic operand/successor/result lists: True only if every field agrees, and for "
-         "region-free ops False only if some field disagrees; nested calls replaced by callee contracts. Block/Region levels, reflexivity, "
-         "symmetry and the clone clause are decided by a bounded stand-in: generated programs vs themselves, their clones, identical rebuilds "
-         "and 10 kinds of single-point mutations, both directions, against an independent isomorphism oracle.",
-    note="Block- and Region-level functions and the recursion (depth induction) are bounded only; attribute equality abstracted (C08); "
-         "regions per op instantiated 0..2; pyvc + z3 trusted.",
-    design="§4 C03",
-    technique="contract-based deductive verification of the operation-level check (SMT) + bounded stand-in with independent isomorphism oracle",
+    text="All three mutually recursive functions are extracted from /repo and verified, each against its own level of the statement, with the calls "
+         "to the level below replaced by the callee's contract (an uninterpreted equivalence evaluated on the context content at the call, recorded "
+         "in a ghost chain). Operation level: name, operand correspondence through the context, result types, attributes, properties, successors, "
+         "parent correspondence, region count; results registered positionally - True only if every field agrees, and for region-free ops False "
+         "only if some field disagrees. Block level: argument counts and types, op counts, every op pair equivalent - both directions - in a "
+         "context where the block, ALL its arguments and ALL results of its ops are registered first. Region level: block counts, every block "
+         "pair equivalent - both directions - in a context where all blocks, their arguments and all results are registered first (use before "
+         "definition across blocks). Operand/successor/result/argument lists are symbolic; regions per op, ops per block and blocks per region are "
+         "instantiated 0..2. Reflexivity, symmetry and the clone clause are decided by a bounded stand-in: generated programs vs themselves, "
+         "their clones, identical rebuilds and 10 kinds of single-point mutations against an independent isomorphism oracle.",
+    note="The recursion (depth induction) is assumed; attribute equality abstracted (C08); child counts instantiated 0..2; "
+         "reflexive/symmetric/clone clauses bounded only; pyvc + z3 trusted.",
+    design="§4 C03, §9",
+    technique="contract-based deductive verification of the operation, block and region levels (modular callee relation, ghost context chain, SMT) + bounded stand-in with independent isomorphism oracle",
 )
 
 CLAIMED["C08"] = dict(
